@@ -48,6 +48,7 @@ Definition run (kind : Z) (inp : list Z) : list Z :=
   | 1501 => run_udp_packet inp
   | 1502 => run_http_query inp
   | 1503 => run_announcer inp
+  | 1504 => run_stop_event inp
   | 1601 => run_tier true inp
   | 1602 => run_udp_parse inp
   | 1603 => run_http_parse inp
@@ -68,6 +69,7 @@ Definition run (kind : Z) (inp : list Z) : list Z :=
   | 2001 => run_owner inp
   | 2002 => run_api_stress inp
   | 1902 => run_priv true inp
+  | 1903 => run_shared_tracker inp
   | 1801 => run_blocklist inp
   | 1802 => run_stree inp
   | 1803 => run_addrlist inp
@@ -116,6 +118,7 @@ Definition mon (kind : Z) (inp obs : list Z) : bool :=
   | 1501 => mon_udp_packet inp obs
   | 1502 => list_eqb_Z (run_http_query inp) obs
   | 1503 => mon_announcer inp obs
+  | 1504 => list_eqb_Z (run_stop_event inp) obs
   | 1601 => mon_tier inp obs
   | 1602 => mon_udp_parse inp obs
   | 1603 => mon_http_parse inp obs
@@ -139,6 +142,7 @@ Definition mon (kind : Z) (inp obs : list Z) : bool :=
   | 2001 => mon_owner inp
   | 2002 => list_eqb_Z (run_api_stress inp) obs
   | 1902 => list_eqb_Z (run_priv true inp) obs
+  | 1903 => list_eqb_Z (run_shared_tracker inp) obs
   | _ => false
   end.
 
